@@ -228,7 +228,7 @@ fn quiet_tree(p: &Pos, d: u32) -> bool {
     ms.iter().all(|m| !p.is_capture(*m) && m.promo == 0 && quiet_tree(&p.make(*m), d - 1))
 }
 
-pub fn layer3(sess: &mut dyn Driver, rng: &mut StdRng, rep: &mut Report, h: u32) {
+pub fn layer3(sess: &mut dyn Driver, rng: &mut StdRng, rep: &mut Report, h: u32, fixed_d: Option<u32>) {
     // pawnless lopsided material
     for _ in 0..50 {
         let strong_white = rng.gen_bool(0.5);
@@ -242,7 +242,7 @@ pub fn layer3(sess: &mut dyn Driver, rng: &mut StdRng, rep: &mut Report, h: u32)
             if !placed { okp = false; }
         }
         if rng.gen_bool(0.3) { let c = rng.gen_range(0..64u8); if p.b[c as usize] == 0 { p.b[c as usize] = -s * N; } }
-        let d = rng.gen_range(1..=2u32);
+        let d = fixed_d.unwrap_or_else(|| rng.gen_range(1..=2u32));
         if !okp || !p.is_legal_position() || !quiet_tree(&p, d) { continue; }
         if static_eval_white(&Pos { half: 0, ..p.clone() }, true).abs() < 400 { continue; }
         let fen = p.to_fen();
@@ -271,6 +271,41 @@ pub fn layer3(sess: &mut dyn Driver, rng: &mut StdRng, rep: &mut Report, h: u32)
             None => rep.violation("no-score", format!("no score for go depth {} on {}", d, fen), replay),
         }
         return;
+    }
+}
+
+// ---- layer 4: the third occurrence is completed inside the searched line ----------------------------
+
+/// The side to move is materially lost but has a forced four-ply perpetual-check cycle; the cycle
+/// has been played once already (history), so repeating it reaches the root position for the third
+/// time at ply 4 of the search. A depth >= 4 search must therefore not score worse than the draw value.
+pub fn layer4(sess: &mut dyn Driver, rng: &mut StdRng, rep: &mut Report) {
+    let (p, cycle) = match gen::perpetual_position(rng) { Some(x) => x, None => { rep.inconclusive("no perpetual position found"); return; } };
+    let contempt = hook::contempt().abs();
+    let st = eval_stm(&p);
+    if st > -500 { return; }
+    let hist: Vec<String> = cycle.iter().map(|m| m.uci()).collect();
+    let depth = rng.gen_range(4..=5u64);
+    let replay = json!({"kind":"c10-l4","fen":p.to_fen(),"moves":hist,"depth":depth});
+    let out = match search(sess, Some((&Some(p.to_fen()), &hist)), &GoSpec::depth(depth)) {
+        Ok(o) => o,
+        Err(e) if e == "watchdog" => { rep.inconclusive("watchdog fired"); return; }
+        Err(e) => { rep.violation("search-failed", format!("{} moves {:?} go depth {}: {}", p.to_fen(), hist, depth, e), replay); return; }
+    };
+    rep.eval();
+    rep.count("layer4_perpetual_checks");
+    rep.distinct_hash(monlib::mix(p.key().h64(), 4000 + depth));
+    match out.score_at_depth(depth as u32).and_then(reported) {
+        Some(Reported::Cp(v)) => {
+            if v < -contempt {
+                rep.violation("repetition-inside-line-not-valued-as-draw", format!("{} after {:?} (root occurred twice; static value {} for the side to move): repeating the forced cycle reaches the third occurrence at ply 4, but go depth {} scores cp {}", p.to_fen(), hist, st, depth, v), replay);
+            } else if v.abs() <= contempt {
+                rep.count("layer4_scored_as_draw");
+            }
+            if rep.samples.len() < 8 { rep.sample(json!({"fen": p.to_fen(), "history": hist, "depth": depth, "static_value_for_side_to_move": st, "score_cp": v})); }
+        }
+        Some(Reported::Mate(m)) => { if m < 0 { rep.violation("repetition-inside-line-not-valued-as-draw", format!("{} after {:?}: scores mate {}", p.to_fen(), hist, m), replay); } }
+        None => rep.violation("no-score", format!("no depth-{} score for {} moves {:?}", depth, p.to_fen(), hist), replay),
     }
 }
 
@@ -315,11 +350,12 @@ pub fn run(args: &monlib::Args, rep: &mut Report) {
     for k in 0..reps {
         for h in 0..=150u32 {
             if (h as u64 + k) % args.nshards.max(1) != args.shard { continue; }
-            layer3(&mut sess, &mut rng, rep, h);
+            layer3(&mut sess, &mut rng, rep, h, Some(1 + (k as u32 % 2)));
             sess.events.clear();
         }
     }
     for _ in 0..args.budget(640, 20_000) / args.nshards.max(1) { mate_at_threshold(&mut sess, &mut rng, rep); }
+    for _ in 0..args.budget(1_600, 60_000) / args.nshards.max(1) { layer4(&mut sess, &mut rng, rep); sess.events.clear(); }
 }
 
 pub fn replay(case: &monlib::Value, rep: &mut Report) {
@@ -367,6 +403,17 @@ pub fn replay(case: &monlib::Value, rep: &mut Report) {
                 if let Some(Reported::Cp(v)) = out.score_at_depth(d).and_then(reported) {
                     println!("half {} depth {} score cp {}", p.half, d, v);
                     if p.half + d < 100 && v.abs() < 300 { rep.violation("fifty-move-draw-too-early", format!("cp {}", v), case.clone()); }
+                }
+            }
+        }
+        "c10-l4" => {
+            let p = Pos::from_fen(case["fen"].as_str().unwrap()).unwrap();
+            let hist = strs(&case["moves"]);
+            let d = case["depth"].as_u64().unwrap_or(4);
+            if let Ok(out) = search(&mut sess, Some((&Some(p.to_fen()), &hist)), &GoSpec::depth(d)) {
+                match out.score_at_depth(d as u32).and_then(reported) {
+                    Some(Reported::Cp(v)) => { println!("score cp {}", v); if v < -hook::contempt().abs() { rep.violation("repetition-inside-line-not-valued-as-draw", format!("cp {}", v), case.clone()); } }
+                    other => println!("{:?}", other),
                 }
             }
         }
